@@ -20,6 +20,8 @@ REQUIRED_THEOREMS = ['runs_disjoint', 'sweep_disjoint', 'sweep_disjoint_ip', 'sw
                      'mergeAllTokens_disjoint', 'nwu_filter_no_containment', 'nwu_filter_keeps_nested', 'nwu_filter_sym_no_nesting',
                      'addTo_crossing_counterexample', 'addTo_disjoint_of_noCrossing', 'overlap_cover_meaning',
                      'mergedExtract_disjoint', 'mergedExtract_disjoint_of_laminar', 'mergedExtract_crossing_counterexample', 'addTo_step_disjoint_iff',
+                     'extClearB_iff', 'mergedExtract_disjoint_monitored', 'extClear_violation_witness', 'mergeAllTokens_len_pos',
+                     'mergedExtract_disjoint_of_tokens',
                      # RTV.Props.C01DtExtract: sub-extractor tokens inside the text -> disjoint results
                      'subextractor_results_ok', 'rangePairTok_inside', 'rangeLoop_mem', 'range_from_leading_blank',
                      'tagInequality_inside', 'mergeMultipleDuration_inside', 'rangePairTok_fixed_starts_at_word',
